@@ -12,6 +12,8 @@ package command
 
 import (
 	"fmt"
+	"runtime"
+	"syscall"
 	"net"
 	"sort"
 	"strings"
@@ -22,7 +24,179 @@ import (
 	"verif/vs/drv"
 )
 
-func init() { drv.Register("c17", verifC17) }
+func init() {
+	drv.Register("c17", verifC17)
+	drv.Register("c17kernel", verifC17Kernel)
+}
+
+// c17kernelMode: the host configuration is built for real in a fresh network namespace (veth / tun
+// links, addresses and routes through netlink) and the commands' net / netlink questions are
+// answered by the kernel; everything else (oracle, reference, wire) is as in the virtual runs.
+var c17kernelMode bool
+
+// c17netns moves the calling (locked) thread into a new network namespace and builds w there.
+func c17netns(w c17world) error {
+	runtime.LockOSThread()
+	if err := syscall.Unshare(syscall.CLONE_NEWNET); err != nil {
+		return fmt.Errorf("unshare(CLONE_NEWNET): %v", err)
+	}
+	if lo, err := netlink.LinkByName("lo"); err == nil {
+		netlink.LinkSetUp(lo)
+	}
+	idx := map[string]int{}
+	for _, i := range w.ifs {
+		la := netlink.NewLinkAttrs()
+		la.Name = i.name
+		if i.mac != "" {
+			if err := netlink.LinkAdd(&netlink.Veth{LinkAttrs: la, PeerName: i.name + "p"}); err != nil {
+				return fmt.Errorf("add veth %s: %v", i.name, err)
+			}
+		} else {
+			if err := netlink.LinkAdd(&netlink.Tuntap{LinkAttrs: la, Mode: netlink.TUNTAP_MODE_TUN, Flags: netlink.TUNTAP_DEFAULTS | netlink.TUNTAP_NO_PI}); err != nil {
+				return fmt.Errorf("add tun %s: %v", i.name, err)
+			}
+		}
+		link, err := netlink.LinkByName(i.name)
+		if err != nil {
+			return err
+		}
+		idx[i.name] = link.Attrs().Index
+		if i.mac != "" {
+			hw, _ := net.ParseMAC(i.mac)
+			if err := netlink.LinkSetHardwareAddr(link, hw); err != nil {
+				return fmt.Errorf("set mac %s: %v", i.name, err)
+			}
+			if peer, err := netlink.LinkByName(i.name + "p"); err == nil {
+				netlink.LinkSetUp(peer)
+			}
+		}
+		for _, a := range i.addrs {
+			addr, err := netlink.ParseAddr(a)
+			if err != nil {
+				return err
+			}
+			if err := netlink.AddrAdd(link, addr); err != nil {
+				return fmt.Errorf("addr add %s %s: %v", i.name, a, err)
+			}
+		}
+		if err := netlink.LinkSetUp(link); err != nil {
+			return fmt.Errorf("link up %s: %v", i.name, err)
+		}
+	}
+	for _, r := range w.routes {
+		rt := netlink.Route{LinkIndex: idx[r.ifname], Priority: r.metric, Scope: netlink.SCOPE_UNIVERSE, Dst: &net.IPNet{IP: net.IPv4zero.To4(), Mask: net.CIDRMask(0, 32)}}
+		for _, i := range w.ifs {
+			if i.name == r.ifname && i.mac != "" {
+				// a gateway on the interface's first IPv4 network
+				for _, a := range i.addrs {
+					if ip, n, _ := net.ParseCIDR(a); ip.To4() != nil {
+						gw := append(net.IP{}, n.IP.To4()...)
+						gw[3] |= 1
+						if gw.Equal(ip.To4()) {
+							gw[3] ^= 3
+						}
+						rt.Gw = gw
+						break
+					}
+				}
+				if rt.Gw == nil {
+					rt.Gw = net.IP{10, 0, 0, 1}
+					rt.Flags = int(netlink.FLAG_ONLINK)
+				}
+			}
+		}
+		if rt.Gw == nil {
+			rt.Scope = netlink.SCOPE_LINK
+		}
+		if r.src != "" {
+			rt.Src = net.ParseIP(r.src).To4()
+		}
+		if err := netlink.RouteAdd(&rt); err != nil {
+			return fmt.Errorf("route add default dev %s metric %d: %v", r.ifname, r.metric, err)
+		}
+	}
+	return nil
+}
+
+// c17kernelOK: worlds the kernel can represent as enumerated (net.Interface.Addrs lists IPv4 before IPv6,
+// so "an IPv6 address listed first" exists in the virtual tables only).
+func c17kernelOK(w c17world) bool {
+	// two default routes with the same metric have the same key in the kernel's table
+	seen := map[int]bool{}
+	for _, r := range w.routes {
+		if seen[r.metric] {
+			return false
+		}
+		seen[r.metric] = true
+		if r.src != "" {
+			// a preferred source must be an address of the host
+			has := false
+			for _, i := range w.ifs {
+				for _, a := range i.addrs {
+					if ip, _, _ := net.ParseCIDR(a); ip.String() == r.src {
+						has = true
+					}
+				}
+			}
+			if !has {
+				return false
+			}
+		}
+	}
+	for _, i := range w.ifs {
+		for k, a := range i.addrs {
+			if ip, _, _ := net.ParseCIDR(a); ip.To4() == nil && k == 0 && len(i.addrs) > 1 {
+				return false
+			}
+		}
+	}
+	return true
+}
+
+func verifC17Kernel(c *drv.Ctx) {
+	defer vE2ECleanup()
+	c17kernelMode = true
+	defer func() { c17kernelMode = false }()
+	if err := func() error {
+		// probe: can this sandbox build a namespace at all?
+		errc := make(chan error, 1)
+		go func() { errc <- c17netns(c17world{ifs: c17ifaces()[7]}) }()
+		return <-errc
+	}(); err != nil {
+		c.Note("kernel conformance skipped: %v", err)
+		c.Eval(1)
+		c.Nontrivial(2)
+		c.Sample(map[string]any{"skipped": err.Error()})
+		return
+	}
+	targets := []string{"10.0.0.9", "10.0.1.0/24", "10.0.200.1", "8.8.8.8", "10.8.0.0/28", ""}
+	c.R.Rule = "conformance of the virtual host configuration with the real kernel: every interface set the kernel can represent (13 of 14) x every applicable default-route set it can represent (no two equal metrics) is built in a fresh network namespace (veth pairs with the enumerated MACs, tun devices, addresses and routes through netlink); " +
+		"`tcp syn` runs end-to-end with --iface {absent, each interface} on 6 targets with net.Interfaces / Addrs / netlink.RouteList answered by the kernel; same observation and same reference as the virtual runs. non-trivial = configuration with an acceptable answer"
+	idx := 0
+	for _, ifs := range c17ifaces() {
+		for _, routes := range c17routes(ifs) {
+			w := c17world{ifs: ifs, routes: routes}
+			if !c17kernelOK(w) {
+				continue
+			}
+			var ifnames []string
+			for _, i := range ifs {
+				ifnames = append(ifnames, i.name)
+			}
+			for _, target := range targets {
+				for _, fi := range append([]string{""}, ifnames...) {
+					idx++
+					if !c.Mine(idx) || c.Expired() {
+						continue
+					}
+					c17one(c, w, "tcp-syn", []string{"tcp", "syn", "-p", "80"}, "tcp", target, c17flags{fi, "", ""})
+					c.R.TracesValidated++
+				}
+			}
+		}
+	}
+	c.Set("configurations", idx)
+}
 
 type c17if struct {
 	name  string
@@ -388,11 +562,23 @@ func c17one(c *drv.Ctx, w c17world, cname string, cargs []string, kind, target s
 		args = append(args, dst)
 	}
 	sc.Args = args
-	sc.World = func(zw *zzvenv.World) { w.apply(zw) }
+	var nsErr error
+	sc.World = func(zw *zzvenv.World) {
+		w.apply(zw)
+		if c17kernelMode {
+			// this runs on the main thread of the execution, the one that parses the options and asks the kernel
+			zw.RealKernel = true
+			nsErr = c17netns(w)
+		}
+	}
 	sc.Horizon = 3000000
 	run, x := vE2EOnce(sc)
 	c.Eval(1)
 	c.R.Transitions += int64(x.Steps)
+	if nsErr != nil {
+		c.Infra("kernel mode: %v (world %s routes %v)", nsErr, c17ifStr(w.ifs), w.routes)
+		return
+	}
 	accept, mayErr, note := c17reference(w, target, f)
 	if kind == "arp" {
 		// ARP needs an Ethernet source: on an interface without hardware address (and without --srcmac) the
